@@ -38,8 +38,8 @@ type FilterScenario struct {
 	Reader  world.ReaderPlan `json:"reader"`
 	Inserts []Insertion      `json:"inserts,omitempty"` // null / adaptation-only packets added to the stream
 	K       int              `json:"k,omitempty"`       // stream carried in 188+K byte packets (size given explicitly)
-	// Pauses: packet indices before which the reader reports io.EOF once and then carries on (a
-	// growing source); the caller polls again after every ErrNoMorePackets. Parser scenarios only.
+	// Pauses: packet indices before which the reader is at end of file (a growing source) until
+	// the caller, told ErrNoMorePackets, polls again. Parser scenarios only.
 	Pauses []int `json:"pauses,omitempty"`
 }
 
@@ -60,7 +60,7 @@ func (filters) Runs(tier string) int64 {
 
 func (filters) Meta() core.EngineMeta {
 	return core.EngineMeta{
-		Rule:        "Reference streams are demuxed with simulator-owned callbacks. Skipper predicates: by PID set, continuity counter value, payload_unit_start, adaptation-field presence / random-access / PCR flags, seeded per-packet decision lists, stateful every-n-th, skip-all, skip-none; the reference is the same stream with the selected packets deleted by the PacketChannel and demuxed without skipper (NextPacket and NextData). Parsers: observer (skip=false, records groups), replacer (skip=true, returns 0..3 tagged data), partial replacer (per PID), failing (error on a seeded subset of groups). Every callback invocation is logged with a deep copy of its arguments. distinct = (skipper kind, parser kind, stream shape class, outcome counts class); non-trivial = the callback decided differently for at least two packets/groups. One parser scenario in five is also run on a reader that reports io.EOF once at one to three packet boundaries before the end and then carries on (a growing source), the caller polling again after each ErrNoMorePackets: no packet may reach the PacketsParser more often than the stream carries it.",
+		Rule:        "Reference streams are demuxed with simulator-owned callbacks. Skipper predicates: by PID set, continuity counter value, payload_unit_start, adaptation-field presence / random-access / PCR flags, seeded per-packet decision lists, stateful every-n-th, skip-all, skip-none; the reference is the same stream with the selected packets deleted by the PacketChannel and demuxed without skipper (NextPacket and NextData). Parsers: observer (skip=false, records groups), replacer (skip=true, returns 0..3 tagged data), partial replacer (per PID), failing (error on a seeded subset of groups). Every callback invocation is logged with a deep copy of its arguments. distinct = (skipper kind, parser kind, stream shape class, outcome counts class); non-trivial = the callback decided differently for at least two packets/groups. One parser scenario in five is also run on a reader that is at end of file at one to three packet boundaries before the end (a growing source) until the caller, told ErrNoMorePackets, polls again: no packet may reach the PacketsParser more often than the stream carries it.",
 		Real:        []string{"astits.Demuxer and everything below it"},
 		Stub:        []string{"refts reference multiplexer", "PacketChannel (deletion of the selected packets)", "logging PacketSkipper / PacketsParser callbacks", "SimReader (fault-free)"},
 		FaultKinds:  []string{"skip-pid", "skip-cc", "skip-pusi", "skip-af", "skip-seq", "skip-nth", "skip-all", "skip-none", "parser-observer", "parser-replacer", "parser-partial", "parser-failing", "reader-eof-pause"},
@@ -721,6 +721,7 @@ func (filters) Execute(scAny any, keepLog bool) *core.Outcome {
 			if errors.Is(err, astits.ErrNoMorePackets) {
 				ends++
 				out.Log.Add("caller", "poll-again", ends)
+				sr.Resume()
 			}
 		}
 		if sr.PauseN > 0 {
